@@ -2,14 +2,19 @@
 Line-protocol driver for C16 (runs the NaN-policy definitions of GPVerif/Model/ExactGP.lean at ℚ).
 
 Request:
-  nan n s  J[(n+s)×(n+s)] mj[(n+s)×1] S[n×n] y[n×1] obs[n×1 of 0/1] c[1×1] c'[1×1]
+  nan n s  J[(n+s)×(n+s)] mj[(n+s)×1] S[n×n] y[n×1] obs[n×1 of 0/1] c[1×1] c'[1×1] cfg
     (entries of y at missing positions are arbitrary placeholders; they are never read under mask and are
      overwritten by the fill value c under fill)
   -> ok cnt | meanMask | covarMask | meanFill | covarFill | covarIgnoringPolicy | quad | det
+        | gMeanMask | gCovarMask | gMeanFill | gCovarFill
+     the g* from the GENERATED `Gen.ExactAlgebra.exact_prediction` (translator G7) under policy mask / fill and the
+     branch configuration cfg (bit mask: 1 fast, 2 skip, 4 detach, 8 eager, 16 ttDim2), fill value c; `nogen` when
+     the generated function returns none;
      where quad = r_oᵀ (A_oo)⁻¹ r_o and det = det(sym A_oo) (certified LDLᵀ; `nodet` when the certificate fails)
      (or `singular`)
 -/
 import GPVerif.Model.ExactGP
+import GPVerif.Gen.ExactAlgebra
 import GPVerif.Model.LDL
 import GPVerif.Model.Proto
 open Proto ExactGP
@@ -26,6 +31,10 @@ def detStr {k : Nat} (A : DMat k k Rat) : String :=
   | some (_, d) => showRat ((List.finRange k).foldl (fun acc i => acc * d i) 1)
   | none => "nodet"
 
+def cfgOf (code : Nat) (pol : Policy) : Gen.ExactAlgebra.Cfg :=
+  { fast := code % 2 == 1, skip := (code / 2) % 2 == 1, detach := (code / 4) % 2 == 1, eager := (code / 8) % 2 == 1,
+    ttDim2 := (code / 16) % 2 == 1, ttIsTensor := (code / 32) % 2 == 1, cache4d := false, policy := pol }
+
 def stepNan (n s : Nat) (ts : List String) : Option String := do
   let (J, ts) ← takeD (n + s) (n + s) ts
   let (mj, ts) ← takeD (n + s) 1 ts
@@ -33,13 +42,20 @@ def stepNan (n s : Nat) (ts : List String) : Option String := do
   let (y, ts) ← takeD n 1 ts
   let (o, ts) ← takeD n 1 ts
   let (c, ts) ← takeD 1 1 ts
-  let (c', _) ← takeD 1 1 ts
+  let (c', ts) ← takeD 1 1 ts
+  let code := (ts.head?.bind String.toNat?).getD 24
   let obs : Fin n → Bool := fun i => o.toMatrix i 0 != 0
+  let A := marginal (trainBlock J) S
+  let gen (pol : Policy) : List String :=
+    match Gen.ExactAlgebra.exact_prediction (cfgOf code pol) J mj A (splitMean mj).1 y (DMat.zero : DMat n 1 Rat) obs
+            (c.toMatrix 0 0) with
+    | some (m, C) => [showD m, showD C]
+    | none => ["nogen", "nogen"]
   match nanPosterior J mj S y obs (c.toMatrix 0 0) (c'.toMatrix 0 0) with
   | some P =>
-    some ("ok " ++ " | ".intercalate [toString P.cnt, showD P.meanMask, showD P.covarMask, showD P.meanFill,
+    some ("ok " ++ " | ".intercalate ([toString P.cnt, showD P.meanMask, showD P.covarMask, showD P.meanFill,
       showD P.covarFill, showD P.covarIgnoring, showRat P.quad,
-      detStr (maskSub (marginal (trainBlock J) S) obs)])
+      detStr (maskSub A obs)] ++ gen Policy.mask ++ gen Policy.fill))
   | none => some "singular"
 
 def step (line : String) : String :=
